@@ -1,4 +1,14 @@
-from .manifest_gen import claim, NOT_APPLICABLE
+NOTE_K = ("Trusted: rustc + Kani 0.68 MIR->goto translation and its std models, CBMC 6.11 + CaDiCaL, the short reference "
+          "model inside each harness, and (k8 profile) the word-narrowing script. Bounded: limb counts, word width and "
+          "input masks are those printed per harness in the evidence; nothing outside them is claimed.")
+
+CHECKS = {}
+NOT_APPLICABLE = {}
+
+
+def claim(pid, text, technique, ref, note=NOTE_K, category="model_checking", engine="kani"):
+    CHECKS[pid] = dict(text=text, technique=technique, ref=ref, note=note, category=category, engine=engine)
+
 
 claim("C04",
       "Bounded model checking of the real add/sub/neg code at the real 64-bit word width: for the listed limb counts every "
